@@ -1,0 +1,107 @@
+//go:build verif
+
+// Contracts for the deductive checker in /verif (comment-only; compiled only with -tags verif).
+// Start-up of a run: PrepareRun creates one processor per channel in a state that satisfies the preconditions
+// of the trigger cycle (C02: "holds from the first block after a source is started, including with trigger settings
+// restored from the saved configuration") and installs the trigger settings read back from the configuration
+// (C16: "reading it back at the next start-up yields the same trigger settings").
+
+package dastard
+
+// savedTriggers(): what viper holds under the key "trigger" (the TRIGGER status message of the previous run).
+//@ ufunc savedTriggers() []FullTriggerState
+//@ extern func github.com/spf13/viper.UnmarshalKey
+//@   ensures result == nil && typeis(rawVal, "*[]FullTriggerState") ==> *unbox(rawVal, "*[]FullTriggerState") == savedTriggers()
+//@   modifies *unbox(rawVal, "*[]FullTriggerState")
+
+//@ extern func time.NewTicker
+//@   pure
+//@   ensures result != nil
+
+//@ func NewDataSegment
+//@   trusted
+//@   ensures result != nil && fresh(result) && result.rawData == data && result.framesPerSample == framesPerSample && result.firstFrameIndex == firstFrame && result.framePeriod == period
+//@   modifies nothing
+
+//@ func NewDataStream
+//@   props C02
+//@   ensures result != nil && fresh(result) && result.rawData == data && result.samplesSeen == len(data) && result.framesPerSample == framesPerSample && result.firstFrameIndex == firstFrame && result.framePeriod == period
+//@   modifies nothing
+
+// A new processor: empty window, nothing searched yet, the last trigger far in the past.
+//@ func NewDataStreamProcessor
+//@   props C02 C16
+//@   requires 0 <= NPresamples && NPresamples < 1000000000 && NSamples < 1000000000
+//@   ensures isnew: result != nil && fresh(result) && result.NSamples == NSamples && result.NPresamples == NPresamples && result.channelIndex == channelIndex && result.Broker == broker
+//@   ensures window: WFStream(result.stream) && len(result.stream.rawData) == 0 && result.stream.samplesSeen == 0 && result.stream.firstFrameIndex == 0
+//@   ensures scan: ScanOK(result) && !result.gemitted && result.gfront == NPresamples
+//@   ensures emt: result.EMTState.t == 0 && result.EMTState.u == 0 && result.EMTState.v == 0 && result.EMTState.nextFrameIndexToInspect == 0
+//@   ensures pubs: result.projectors != nil && result.basis != nil && result.LJH22 == nil && result.LJH3 == nil && result.OFF == nil
+//@   modifies nothing
+//@   ghost exit: result.gfront := NPresamples
+
+//@ func (*AnySource).VoltsPerArb
+//@   props C02
+//@   requires ds.nchan >= 0
+//@   ensures len(result) == ds.nchan && allocated(result) && result == ds.voltsPerArb
+//@   modifies ds.voltsPerArb
+//@   loop 1
+//@     invariant 0 <= i && i <= ds.nchan && len(ds.voltsPerArb) == ds.nchan && fresh(ds.voltsPerArb) && unchanged(ds.nchan)
+
+// The ZMQ record/summary publishers are package-level sockets started on first use (trusted: socket set-up, goroutines).
+//@ func (*DataPublisher).SetPubRecords
+//@   trusted
+//@   modifies dp.PubRecordsChan
+//@ func (*DataPublisher).SetPubSummaries
+//@   trusted
+//@   modifies dp.PubSummariesChan
+
+// gsrc[c]: witness -- index of the saved trigger group whose settings channel c received, or -1 for the defaults.
+//@ ghost field AnySource.gsrc intmap
+// SameTrig: the persistent trigger settings of processor d are those of the saved state t (edge-multi is switched off
+// on restore by design; the record lengths inside the state are not saved).
+//@ pred SameTrig(d *DataStreamProcessor, t TriggerState) := d.AutoTrigger == t.AutoTrigger && d.AutoDelay == t.AutoDelay && d.AutoVetoRange == t.AutoVetoRange
+//@     && d.LevelTrigger == t.LevelTrigger && d.LevelRising == t.LevelRising && d.LevelLevel == t.LevelLevel
+//@     && d.EdgeTrigger == t.EdgeTrigger && d.EdgeRising == t.EdgeRising && d.EdgeFalling == t.EdgeFalling && d.EdgeLevel == t.EdgeLevel && !d.EdgeMulti
+//@ pred DefaultTrig(d *DataStreamProcessor) := !d.AutoTrigger && d.AutoDelay == 250000000 && d.AutoVetoRange == 0 && !d.LevelTrigger && d.LevelLevel == 4000 && !d.EdgeTrigger && d.EdgeRising && d.EdgeLevel == 100 && !d.EdgeMulti
+// InGroup(fts, g, c): channel c is listed in saved group g.
+//@ pred InGroup(fts []FullTriggerState, g int, c int) := exists k int :: {wit(k)} wit(k) && 0 <= k && k < len(fts[g].ChannelIndices) && fts[g].ChannelIndices[k] == c
+// Ready(d, npre, nsamp): the processor satisfies what the first trigger cycle requires.
+//@ pred Ready(d *DataStreamProcessor, npre int, nsamp int) := d != nil && allocated(d) && d.NSamples == nsamp && d.NPresamples == npre && EMTValid(d) && ScanOK(d) && WFStream(d.stream) && !d.EdgeMulti && len(d.stream.rawData) == 0
+
+//@ func (*AnySource).PrepareRun
+//@   props C02 C16
+//@   uses wit_all
+//@   requires ds != nil && allocated(ds.chanNames) && allocated(ds.chanNumbers) && len(ds.chanNames) >= ds.nchan && len(ds.chanNumbers) >= ds.nchan && 3 <= Npresamples && Npresamples < Nsamples && Nsamples < 1000000000
+//@   requires saved: forall g int, k int :: {savedTriggers()[g].ChannelIndices[k]} 0 <= g && g < len(savedTriggers()) && 0 <= k && k < len(savedTriggers()[g].ChannelIndices) ==> savedTriggers()[g].ChannelIndices[k] >= 0
+//@   requires savedok: allocated(savedTriggers()) && (forall g int :: {savedTriggers()[g]} 0 <= g && g < len(savedTriggers()) ==> allocated(savedTriggers()[g].ChannelIndices))
+//@   ensures rejects: ds.nchan <= 0 ==> result != nil
+//@   ensures ready: result == nil ==> len(ds.processors) == ds.nchan && allocated(ds.processors) && (forall c int :: {ds.processors[c]} 0 <= c && c < ds.nchan ==> Ready(ds.processors[c], Npresamples, Nsamples))
+//@   modifies ds.abortSelf, ds.nextBlock, ds.broker, ds.numberWrittenTicker, ds.writingState.externalTriggerTicker, ds.writingState.dataDropTicker, ds.processors, ds.voltsPerArb, ds.lastread.*, ds.gsrc, any(TriggerState).EdgeMulti, any(DataPublisher).PubRecordsChan, any(DataPublisher).PubSummariesChan
+//@   ghost entry: ds.gsrc[c] := -1
+//@   ghost loop 2: ds.gsrc[channelIndex] := ite(0 <= channelIndex && channelIndex < ds.nchan, rangeindex1, ds.gsrc[channelIndex])
+//@   loop 1
+//@     invariant -1 <= rangeindex && rangeindex <= len(fts) - 1 && allocated(fts) && len(tsptrs) == ds.nchan && fresh(tsptrs) && unchanged(ds.nchan) && ds.nchan > 0 && len(ds.processors) == ds.nchan && fresh(ds.processors) && len(vpa) == ds.nchan && allocated(vpa)
+//@     invariant groups: forall g int :: {fts[g]} 0 <= g && g < len(fts) ==> allocated(fts[g].ChannelIndices) && (forall k int :: {fts[g].ChannelIndices[k]} 0 <= k && k < len(fts[g].ChannelIndices) ==> fts[g].ChannelIndices[k] >= 0)
+//@     invariant src: forall c int :: {ds.gsrc[c]} 0 <= c && c < ds.nchan ==> -1 <= ds.gsrc[c] && ds.gsrc[c] <= rangeindex && (ds.gsrc[c] == -1 ==> tsptrs[c] == nil)
+//@          && (ds.gsrc[c] >= 0 ==> tsptrs[c] == addr(fts[ds.gsrc[c]].TriggerState) && !fts[ds.gsrc[c]].TriggerState.EdgeMulti && InGroup(fts, ds.gsrc[c], c))
+//@     invariant all: forall g int, k int :: {fts[g].ChannelIndices[k]} 0 <= g && g <= rangeindex && 0 <= k && k < len(fts[g].ChannelIndices) && fts[g].ChannelIndices[k] < ds.nchan ==> ds.gsrc[fts[g].ChannelIndices[k]] >= 0
+//@   loop 2
+//@     invariant 0 <= rangeindex1 && rangeindex1 < len(fts) && -1 <= rangeindex && rangeindex <= len(ts.ChannelIndices) - 1 && ts.ChannelIndices == fts[rangeindex1].ChannelIndices && i == rangeindex1
+//@     invariant st: allocated(fts) && len(tsptrs) == ds.nchan && fresh(tsptrs) && unchanged(ds.nchan) && ds.nchan > 0 && len(ds.processors) == ds.nchan && fresh(ds.processors) && len(vpa) == ds.nchan && allocated(vpa)
+//@     invariant groups: forall g int :: {fts[g]} 0 <= g && g < len(fts) ==> allocated(fts[g].ChannelIndices) && (forall k int :: {fts[g].ChannelIndices[k]} 0 <= k && k < len(fts[g].ChannelIndices) ==> fts[g].ChannelIndices[k] >= 0)
+//@     invariant src: forall c int :: {ds.gsrc[c]} 0 <= c && c < ds.nchan ==> -1 <= ds.gsrc[c] && ds.gsrc[c] <= rangeindex1 && (ds.gsrc[c] == -1 ==> tsptrs[c] == nil)
+//@          && (ds.gsrc[c] >= 0 ==> tsptrs[c] == addr(fts[ds.gsrc[c]].TriggerState) && !fts[ds.gsrc[c]].TriggerState.EdgeMulti && InGroup(fts, ds.gsrc[c], c))
+//@     invariant all: forall g int, k int :: {fts[g].ChannelIndices[k]} 0 <= g && 0 <= k && k < len(fts[g].ChannelIndices) && fts[g].ChannelIndices[k] < ds.nchan && (g < rangeindex1 || (g == rangeindex1 && k <= rangeindex)) ==> ds.gsrc[fts[g].ChannelIndices[k]] >= 0
+//@     hint seed: wit(rangeindex)
+//@   loop 3
+//@     invariant -1 <= rangeindex && rangeindex <= ds.nchan - 1 && len(ds.processors) == ds.nchan && fresh(ds.processors) && allocated(ds.processors) && unchanged(ds.nchan) && len(tsptrs) == ds.nchan && len(vpa) == ds.nchan && allocated(vpa) && allocated(fts)
+//@     invariant src: forall c int :: {ds.gsrc[c]} 0 <= c && c < ds.nchan ==> -1 <= ds.gsrc[c] && (ds.gsrc[c] == -1 ==> tsptrs[c] == nil)
+//@          && (ds.gsrc[c] >= 0 ==> ds.gsrc[c] < len(fts) && tsptrs[c] == addr(fts[ds.gsrc[c]].TriggerState) && !fts[ds.gsrc[c]].TriggerState.EdgeMulti && InGroup(fts, ds.gsrc[c], c))
+//@     invariant r1: forall c int :: {ds.processors[c]} 0 <= c && c <= rangeindex ==> ds.processors[c] != nil && allocated(ds.processors[c]) && fresh(ds.processors[c])
+//@     invariant r2: forall c int :: {ds.processors[c]} 0 <= c && c <= rangeindex ==> ds.processors[c].NSamples == Nsamples && ds.processors[c].NPresamples == Npresamples && EMTValid(ds.processors[c])
+//@     invariant r3: forall c int :: {ds.processors[c]} 0 <= c && c <= rangeindex ==> ScanOK(ds.processors[c])
+//@     invariant r4: forall c int :: {ds.processors[c]} 0 <= c && c <= rangeindex ==> WFStream(ds.processors[c].stream) && len(ds.processors[c].stream.rawData) == 0
+//@     invariant r5: forall c int :: {ds.processors[c]} 0 <= c && c <= rangeindex ==> !ds.processors[c].EdgeMulti
+//@     invariant dflt: !defaultTS.AutoTrigger && defaultTS.AutoDelay == 250000000 && defaultTS.AutoVetoRange == 0 && !defaultTS.LevelTrigger && defaultTS.LevelLevel == 4000 && !defaultTS.EdgeTrigger && defaultTS.EdgeRising && defaultTS.EdgeLevel == 100 && !defaultTS.EdgeMulti && fresh(addr(defaultTS))
+//@     invariant restored: forall c int :: {ds.processors[c]} 0 <= c && c <= rangeindex ==> (ds.gsrc[c] >= 0 ==> SameTrig(ds.processors[c], fts[ds.gsrc[c]].TriggerState)) && (ds.gsrc[c] == -1 ==> DefaultTrig(ds.processors[c]))
